@@ -1076,7 +1076,9 @@ fn derive_dot_expression(
         // Tuple field access by name
         (Shape::Tuple(tshape), Expression::Simple(Value::Str(pi)))
         | (Shape::Tuple(tshape), Expression::Simple(Value::Symbol(pi))) => {
-            for (field_name, field_shape) in tshape.val.iter() {
+            // A copy puts the fields it sets after the tuple's own, so
+            // the last field of a name is the one the value has.
+            for (field_name, field_shape) in tshape.val.iter().rev() {
                 if field_name.val == pi.val {
                     return field_shape.clone();
                 }
@@ -1151,10 +1153,13 @@ fn derive_dot_expression(
                                 }));
                             }
                             Shape::Tuple(tshape) => {
-                                for (field_name, field_shape) in tshape.val.iter() {
-                                    if field_name.val == pi.val {
-                                        results.push(field_shape.clone());
-                                    }
+                                if let Some((_, field_shape)) = tshape
+                                    .val
+                                    .iter()
+                                    .rev()
+                                    .find(|(field_name, _)| field_name.val == pi.val)
+                                {
+                                    results.push(field_shape.clone());
                                 }
                             }
                             Shape::Hole(_) => {
@@ -1295,7 +1300,7 @@ fn resolve_tuple_field(
 ) -> Shape {
     match accessor_expr {
         Expression::Simple(Value::Symbol(pi)) | Expression::Simple(Value::Str(pi)) => {
-            for (field_name, field_shape) in tshape.val.iter() {
+            for (field_name, field_shape) in tshape.val.iter().rev() {
                 if field_name.val == pi.val {
                     return field_shape.clone();
                 }
